@@ -66,23 +66,23 @@ __CPROVER_requires(REGIONS_OK && __CPROVER_is_fresh(self_, sizeof(*self_)) && 0 
 __CPROVER_requires(__CPROVER_is_fresh(g_hist_answer, sizeof(int) * NR_CAP))
 __CPROVER_requires(EV_EQ_U(incomingEvent, g_evt))
 __CPROVER_assigns(__CPROVER_object_whole(self_->m_states))
-__CPROVER_ensures(region_id <= g_k ==> self_->m_states[g_k] == g_hist_answer[g_k])             /*@ob C08.every-region-starts-where-history-says */
+__CPROVER_ensures(region_id <= g_k ==> self_->m_states[g_k] == g_hist_answer[g_k])             /*@ob C08,C03,C02.every-region-starts-where-history-says */
 __CPROVER_ensures(g_k < region_id ==> self_->m_states[g_k] == __CPROVER_old(self_->m_states[g_k]))
 ;
 
 /* exit of the active substate of one region: mpl::for_each<state_list>(entry_exit_helper<Event,false>(id, evt, self)) */
 void exit_active_substate(int state_id, event_t evt, fsm_t* self)
-__CPROVER_requires(0 <= g_exit_next && g_exit_next < nr_regions && state_id == self->m_states[g_exit_next])   /*@ob C02.substates-exited-in-region-order-each-once */
+__CPROVER_requires(0 <= g_exit_next && g_exit_next < nr_regions && state_id == self->m_states[g_exit_next])   /*@ob C02,C03,C07.substates-exited-in-region-order-each-once */
 __CPROVER_requires(g_seq == 0 && !g_exc)
 __CPROVER_requires(EV_EQ_U(evt, g_evt))
 __CPROVER_assigns(g_exit_next, g_exc)
 __CPROVER_ensures(g_exit_next == __CPROVER_old(g_exit_next) + 1)
 ;
 void enter_active_substate(int state_id, event_t evt, fsm_t* self)
-__CPROVER_requires(0 <= g_entry_next && g_entry_next < nr_regions && state_id == self->m_states[g_entry_next])   /*@ob C02.substates-entered-in-region-order-each-once */
+__CPROVER_requires(0 <= g_entry_next && g_entry_next < nr_regions && state_id == self->m_states[g_entry_next])   /*@ob C02,C03,C07.substates-entered-in-region-order-each-once */
 __CPROVER_requires(!g_exc)
-__CPROVER_requires(!evt.wrapped && EV_EQ_U(evt, g_evt))                          /*@ob C09.substates-see-the-original-event */
-__CPROVER_requires(g_no_msg_queue || self->m_event_processing)                   /*@ob C04.entry-behaviours-run-with-the-busy-mark-set */
+__CPROVER_requires(!evt.wrapped && EV_EQ_U(evt, g_evt))                          /*@ob C09,C18,C02.substates-see-the-original-event */
+__CPROVER_requires(g_no_msg_queue || self->m_event_processing)                   /*@ob C04,C10.entry-behaviours-run-with-the-busy-mark-set */
 __CPROVER_assigns(g_entry_next, g_exc)
 __CPROVER_ensures(g_entry_next == __CPROVER_old(g_entry_next) + 1)
 ;
@@ -90,32 +90,32 @@ void regions_do_exit(int region_id, fsm_t* self_, event_t incomingEvent)
 __CPROVER_requires(REGIONS_OK && __CPROVER_is_fresh(self_, sizeof(*self_)) && 0 <= region_id && region_id <= nr_regions)
 __CPROVER_requires(g_exit_next == region_id && g_seq == 0 && !g_exc && EV_EQ_U(incomingEvent, g_evt))
 __CPROVER_assigns(g_exit_next, g_exc)
-__CPROVER_ensures(!g_exc ==> g_exit_next == nr_regions)                          /*@ob C02.every-regions-active-substate-exited */
+__CPROVER_ensures(!g_exc ==> g_exit_next == nr_regions)                          /*@ob C02,C03,C07.every-regions-active-substate-exited */
 ;
 void regions_do_start(int region_id, fsm_t* self_, event_t incomingEvent)
 __CPROVER_requires(REGIONS_OK && __CPROVER_is_fresh(self_, sizeof(*self_)) && 0 <= region_id && region_id <= nr_regions)
 __CPROVER_requires(g_entry_next == region_id && !g_exc && !incomingEvent.wrapped && EV_EQ_U(incomingEvent, g_evt))
-__CPROVER_requires(g_no_msg_queue || self_->m_event_processing)                  /*@ob C04.entry-behaviours-run-with-the-busy-mark-set */
+__CPROVER_requires(g_no_msg_queue || self_->m_event_processing)                  /*@ob C04,C10.entry-behaviours-run-with-the-busy-mark-set */
 __CPROVER_assigns(g_entry_next, g_exc)
-__CPROVER_ensures(!g_exc ==> g_entry_next == nr_regions)                         /*@ob C02.every-regions-substate-entered */
+__CPROVER_ensures(!g_exc ==> g_entry_next == nr_regions)                         /*@ob C02,C03,C07.every-regions-substate-entered */
 ;
 
 /* own behaviours of the machine (front-end) */
 void Derived_on_exit(fsm_t* self, event_t evt, fsm_t* fsm)
-__CPROVER_requires(g_exit_next == nr_regions && g_seq == 0 && !g_exc)            /*@ob C02.own-exit-after-all-substates */
+__CPROVER_requires(g_exit_next == nr_regions && g_seq == 0 && !g_exc)            /*@ob C02,C07.own-exit-after-all-substates */
 __CPROVER_assigns(g_seq, g_exc)
 __CPROVER_ensures(g_exc ? g_seq == __CPROVER_old(g_seq) : g_seq == 1)
 ;
 void Derived_on_entry(fsm_t* self, event_t evt, fsm_t* fsm)
-__CPROVER_requires(g_seq == 1 && g_entry_next == 0 && !g_exc)                    /*@ob C02.own-entry-before-any-substate */
-__CPROVER_requires(g_no_msg_queue || self->m_event_processing || IN_START)       /*@ob C04.entry-behaviours-run-with-the-busy-mark-set */
+__CPROVER_requires(g_seq == 1 && g_entry_next == 0 && !g_exc)                    /*@ob C02,C07,C09.own-entry-before-any-substate */
+__CPROVER_requires(g_no_msg_queue || self->m_event_processing || IN_START)       /*@ob C04,C10.entry-behaviours-run-with-the-busy-mark-set */
 __CPROVER_assigns(g_seq, g_exc)
 __CPROVER_ensures(g_exc ? g_seq == __CPROVER_old(g_seq) : g_seq == 2)
 ;
 
 /* completion event after the initial entries (process_completion_event unit: evloop_back.spec.h) */
 void process_completion_event(fsm_t* self, _Bool handled, EventSource source)
-__CPROVER_requires(g_entry_next == nr_regions && !g_exc)                         /*@ob C10.completion-event-after-the-entry-cascade */
+__CPROVER_requires(g_entry_next == nr_regions && !g_exc)                         /*@ob C10,C02.completion-event-after-the-entry-cascade */
 __CPROVER_requires(handled)
 __CPROVER_requires(g_no_msg_queue || !self->m_event_processing)                  /*@ob C10.completion-event-is-dispatched-at-once-not-queued */
 __CPROVER_assigns(g_seq, g_exc)
@@ -128,8 +128,8 @@ __CPROVER_ensures(g_seq == __CPROVER_old(g_seq) + 1)
 
 void internal_start(fsm_t* self, event_t incomingEvent)
 __CPROVER_requires(REGIONS_OK && __CPROVER_is_fresh(self, sizeof(*self)) && self == g_self)
-__CPROVER_requires(g_seq == 2 && g_entry_next == 0 && !g_exc)   /*@ob C02.substates-entered-after-the-machines-own-entry */
-__CPROVER_requires(!incomingEvent.wrapped && EV_EQ_U(incomingEvent, g_evt))      /*@ob C09.substates-see-the-original-event */
+__CPROVER_requires(g_seq == 2 && g_entry_next == 0 && !g_exc)   /*@ob C02,C07,C09.substates-entered-after-the-machines-own-entry */
+__CPROVER_requires(!incomingEvent.wrapped && EV_EQ_U(incomingEvent, g_evt))      /*@ob C09,C18,C02.substates-see-the-original-event */
 __CPROVER_requires(g_no_msg_queue || self->m_event_processing)   /* only called inside do_entry's busy bracket (direct_event_start_helper units) */
 __CPROVER_assigns(g_entry_next, g_seq, g_exc, self->m_event_processing)
 __CPROVER_ensures(g_seq == 2 || g_seq == 3)
@@ -147,7 +147,7 @@ __CPROVER_ensures(self->m_states[g_k] == (g_k_is_fork_target ? g_k_fork_id : __C
 ;
 HandledEnum process_event(fsm_t* self, event_t evt)
 __CPROVER_requires(g_seq == 3 && g_pe_calls == 0 && !g_exc)                   /*@ob C09.entry-point-event-processed-once-after-the-entry */
-__CPROVER_requires(!evt.wrapped && EV_EQ_U(evt, g_evt))                          /*@ob C09.entry-point-continues-with-the-original-event */
+__CPROVER_requires(!evt.wrapped && EV_EQ_U(evt, g_evt))                          /*@ob C09,C18.entry-point-continues-with-the-original-event */
 __CPROVER_assigns(g_pe_calls, g_exc)
 __CPROVER_ensures(g_pe_calls == 1)
 ;
@@ -159,9 +159,9 @@ __CPROVER_requires(0 <= g_target_region && g_target_region < nr_regions)
 __CPROVER_requires(g_no_msg_queue || self->m_event_processing)
 __CPROVER_assigns(g_seq, g_entry_next, g_exc, g_forked, g_pe_calls, self->m_event_processing, __CPROVER_object_upto(self->m_states, sizeof(self->m_states)))
 __CPROVER_ensures(!g_exc ==> g_seq == 3)                                          /*@ob C02,C09.substates-entered-exactly-once-after-the-own-entry */
-__CPROVER_ensures((ENTRY_KIND == 1 || ENTRY_KIND == 3) ==> (g_seq == 3 ==> self->m_states[g_k] == (g_k == g_target_region ? g_target_id : __CPROVER_old(self->m_states[g_k]))))   /*@ob C09.explicit-entry-sets-only-the-targeted-region */
+__CPROVER_ensures((ENTRY_KIND == 1 || ENTRY_KIND == 3) ==> (g_seq == 3 ==> self->m_states[g_k] == (g_k == g_target_region ? g_target_id : __CPROVER_old(self->m_states[g_k]))))   /*@ob C09,C03,C08.explicit-entry-sets-only-the-targeted-region */
 __CPROVER_ensures(ENTRY_KIND == 0 ==> self->m_states[g_k] == __CPROVER_old(self->m_states[g_k]))                                /*@ob C08,C09.plain-entry-keeps-the-history-or-initial-states */
-__CPROVER_ensures(ENTRY_KIND == 2 ==> (g_seq == 3 ==> self->m_states[g_k] == (g_k_is_fork_target ? g_k_fork_id : __CPROVER_old(self->m_states[g_k]))))   /*@ob C09.fork-sets-exactly-the-named-regions */
+__CPROVER_ensures(ENTRY_KIND == 2 ==> (g_seq == 3 ==> self->m_states[g_k] == (g_k_is_fork_target ? g_k_fork_id : __CPROVER_old(self->m_states[g_k]))))   /*@ob C09,C03,C08.fork-sets-exactly-the-named-regions */
 __CPROVER_ensures((ENTRY_KIND == 3 && !g_exc) ==> g_pe_calls == 1)                                                              /*@ob C09.entry-point-event-processed-once-after-the-entry */
 __CPROVER_ensures(ENTRY_KIND != 3 ==> g_pe_calls == 0)
 ;
@@ -169,22 +169,22 @@ __CPROVER_ensures(ENTRY_KIND != 3 ==> g_pe_calls == 0)
 /* do_entry / do_exit of a submachine */
 #define REGIONS_DO_ENTRY(self, evt) (regions_do_entry(0, self, evt), g_dstep = 1)   /* ghost step only */
 void direct_event_start_helper_call(fsm_t* self, event_t evt, fsm_t* fsm)
-__CPROVER_requires(g_dstep == 1 && !g_exc)                                       /*@ob C08.regions-initialised-from-history-before-explicit-targets */
-__CPROVER_requires(g_no_msg_queue || self->m_event_processing)                   /*@ob C04.entry-behaviours-run-with-the-busy-mark-set */
-__CPROVER_requires(self->m_states[g_k] == g_hist_answer[g_k])                    /*@ob C08.every-region-starts-where-history-says */
+__CPROVER_requires(g_dstep == 1 && !g_exc)                                       /*@ob C08,C09.regions-initialised-from-history-before-explicit-targets */
+__CPROVER_requires(g_no_msg_queue || self->m_event_processing)                   /*@ob C04,C10.entry-behaviours-run-with-the-busy-mark-set */
+__CPROVER_requires(self->m_states[g_k] == g_hist_answer[g_k])                    /*@ob C08,C03,C02.every-region-starts-where-history-says */
 __CPROVER_assigns(g_dstep, g_exc, self->m_event_processing, __CPROVER_object_upto(self->m_states, sizeof(self->m_states)))      /* internal_start clears the busy mark before the completion event */
 __CPROVER_ensures(g_dstep == 2)
 ;
 void do_handle_deferred(fsm_t* self, _Bool new_seq)
-__CPROVER_requires(g_dstep == 2 && !g_exc)                                       /*@ob C05.deferred-events-retried-after-entry */
-__CPROVER_requires(g_no_msg_queue || !self->m_event_processing)                  /*@ob C04.pending-events-run-after-the-step-completed */
+__CPROVER_requires(g_dstep == 2 && !g_exc)                                       /*@ob C05,C10.deferred-events-retried-after-entry */
+__CPROVER_requires(g_no_msg_queue || !self->m_event_processing)                  /*@ob C04,C10.pending-events-run-after-the-step-completed */
 __CPROVER_requires(new_seq)
 __CPROVER_assigns(g_dstep, g_exc)
 __CPROVER_ensures(g_dstep == 3)
 ;
 void process_message_queue(fsm_t* self)
 __CPROVER_requires(g_dstep == 3 && !g_exc)
-__CPROVER_requires(g_no_msg_queue || !self->m_event_processing)                  /*@ob C04.pending-events-run-after-the-step-completed */
+__CPROVER_requires(g_no_msg_queue || !self->m_event_processing)                  /*@ob C04,C10.pending-events-run-after-the-step-completed */
 __CPROVER_assigns(g_dstep, g_exc)
 __CPROVER_ensures(g_dstep == 4)
 ;
@@ -197,8 +197,8 @@ __CPROVER_ensures(g_no_msg_queue || !self->m_event_processing)                  
 ;
 void do_exit(fsm_t* self, event_t incomingEvent, fsm_t* fsm)
 __CPROVER_requires(REGIONS_OK && __CPROVER_is_fresh(self, sizeof(*self)) && g_exit_next == 0 && g_seq == 0 && !g_exc && g_cleared == 0 && EV_EQ_U(incomingEvent, g_evt))
-__CPROVER_assigns(g_exit_next, g_seq, g_exc, g_cleared)                                                      /*@ob C02.exit-changes-no-active-state */
-__CPROVER_ensures(!g_exc ==> (g_exit_next == nr_regions && g_seq == 2))                                      /*@ob C02.exit-cascade-substates-then-machine-then-history */
+__CPROVER_assigns(g_exit_next, g_seq, g_exc, g_cleared)                                                      /*@ob C02,C03.exit-changes-no-active-state */
+__CPROVER_ensures(!g_exc ==> (g_exit_next == nr_regions && g_seq == 2))                                      /*@ob C02,C07,C08.exit-cascade-substates-then-machine-then-history */
 __CPROVER_ensures(!g_exc ==> (g_cleared == !g_keep_deferred))                                                /*@ob C05,C08.deferred-events-dropped-only-without-history */
 ;
 
@@ -210,9 +210,9 @@ __CPROVER_assigns(g_seq, __CPROVER_object_upto(self->m_states, sizeof(self->m_st
 __CPROVER_ensures(g_seq == 1 && self->m_states[g_k] == g_init_ids[g_k])
 ;
 void call_init_foreach(fsm_t* self, event_t evt)   /* mpl::for_each<initial_states>(call_init<Event>(evt,this)) : entry of every region's initial state, region order; proved in <be>.call_init.foreach (foreach_back.spec.h) */
-__CPROVER_requires(g_seq == 2 && g_entry_next == 0 && !g_exc)                     /*@ob C02.substates-entered-after-the-machines-own-entry */
-__CPROVER_requires(g_no_msg_queue || self->m_event_processing)                   /*@ob C04.entry-behaviours-run-with-the-busy-mark-set */
-__CPROVER_requires(self->m_states[g_k] == g_init_ids[g_k])                       /*@ob C03.start-enters-the-initial-configuration */
+__CPROVER_requires(g_seq == 2 && g_entry_next == 0 && !g_exc)                     /*@ob C02,C07,C09.substates-entered-after-the-machines-own-entry */
+__CPROVER_requires(g_no_msg_queue || self->m_event_processing)                   /*@ob C04,C10.entry-behaviours-run-with-the-busy-mark-set */
+__CPROVER_requires(self->m_states[g_k] == g_init_ids[g_k])                       /*@ob C03,C02.start-enters-the-initial-configuration */
 __CPROVER_assigns(g_entry_next, g_exc)
 __CPROVER_ensures(!g_exc ==> g_entry_next == nr_regions)
 ;
@@ -220,7 +220,7 @@ static event_t fsm_initial_event(void) { return g_evt; }
 static event_t fsm_final_event(void) { return g_evt; }
 void start_process_message_queue(fsm_t* self)      /* process_message_queue(this) at the end of start(): events raised by the initial entry behaviours */
 __CPROVER_requires(g_seq == 3 && !g_exc)                                           /*@ob C04,C10.events-raised-by-the-initial-entries-run-after-the-completion-event */
-__CPROVER_requires(g_no_msg_queue || !self->m_event_processing)                  /*@ob C04.pending-events-run-after-the-step-completed */
+__CPROVER_requires(g_no_msg_queue || !self->m_event_processing)                  /*@ob C04,C10.pending-events-run-after-the-step-completed */
 __CPROVER_assigns(g_seq, g_exc)
 __CPROVER_ensures(g_seq == 4)
 ;
@@ -228,7 +228,7 @@ void start_unit(fsm_t* self, event_t incomingEvent)
 __CPROVER_requires(REGIONS_OK && __CPROVER_is_fresh(self, sizeof(*self)) && self == g_self && g_seq == 0 && g_entry_next == 0 && !g_exc && EV_EQ_U(incomingEvent, g_evt) && !incomingEvent.wrapped && !g_evt.wrapped)
 __CPROVER_requires(!self->m_event_processing)
 __CPROVER_assigns(g_seq, g_entry_next, g_exc, self->m_event_processing, __CPROVER_object_upto(self->m_states, sizeof(self->m_states)))
-__CPROVER_ensures(self->m_states[g_k] == g_init_ids[g_k])                                                      /*@ob C03.start-enters-the-initial-configuration */
+__CPROVER_ensures(self->m_states[g_k] == g_init_ids[g_k])                                                      /*@ob C03,C02.start-enters-the-initial-configuration */
 __CPROVER_ensures(!g_exc ==> (g_entry_next == nr_regions && g_seq == 4))                                      /*@ob C02,C04,C10.own-entry-then-initial-entries-then-completion-event-then-raised-events */
 __CPROVER_ensures(!self->m_event_processing)                                                                  /*@ob C04,C12.machine-not-left-busy */
 ;
@@ -240,5 +240,5 @@ __CPROVER_ensures(g_seq == 2)
 void stop_unit(fsm_t* self, event_t finalEvent)
 __CPROVER_requires(__CPROVER_is_fresh(self, sizeof(*self)) && g_seq == 0)
 __CPROVER_assigns(g_seq)
-__CPROVER_ensures(g_seq == 2)                                                                                   /*@ob C03.stop-exits-the-active-configuration-once */
+__CPROVER_ensures(g_seq == 2)                                                                                   /*@ob C03,C02.stop-exits-the-active-configuration-once */
 ;
